@@ -11,10 +11,11 @@ EXTENDS Retry, Json, IOUtils
 Tr == ndJsonDeserialize(IOEnv.TRACE)
 
 VARIABLES l, bad, why, hid, toks, tcpin, openfail, newtry,
-          nest      \* number of API calls in progress (1 = only the outermost one)
+          nest,     \* number of API calls in progress (1 = only the outermost one)
+          fi        \* frames of the current (TCP) write event already judged: one frame per step
 (* openfail: opening a connection (socket / connect / local address) just failed and the failure has not been
    attributed yet; newtry: token -> tries already consumed by a request that has not transmitted anything yet *)
-tvars == <<rvars, l, bad, why, hid, toks, tcpin, openfail, newtry, nest>>
+tvars == <<rvars, l, bad, why, hid, toks, tcpin, openfail, newtry, nest, fi>>
 xvars == <<toks, tcpin, openfail, newtry>>
 
 Rej(label) == /\ bad' = TRUE /\ why' = [line |-> l, label |-> label]
@@ -69,8 +70,8 @@ HSetServers(e) ==
    requeued.  This is a step of its own, taken before the event that revealed it is judged. *)
 DyingTarget(e) ==
   IF e.e = "sk" /\ e.op = "send" THEN
-       IF Len(e.frames) > 0 /\ e.frames[1].qid \in DOMAIN q /\ q[e.frames[1].qid].st = "inflight"
-          /\ q[e.frames[1].qid].srv \in Dying THEN q[e.frames[1].qid].srv ELSE 0
+       IF Len(e.frames) > fi /\ e.frames[fi + 1].qid \in DOMAIN q /\ q[e.frames[fi + 1].qid].st = "inflight"
+          /\ q[e.frames[fi + 1].qid].srv \in Dying THEN q[e.frames[fi + 1].qid].srv ELSE 0
   ELSE IF e.e = "sk" /\ e.op = "close" THEN
        IF e.fd \in DOMAIN fdi /\ fdi[e.fd].srv \in Dying /\ ~fdi[e.fd].err THEN fdi[e.fd].srv ELSE 0
   ELSE IF e.e = "sk" /\ e.op = "open" THEN
@@ -196,11 +197,26 @@ HSendFrame(e, f) ==
           /\ UNCHANGED <<cfg, now, owedO, proc, oos, xvars>> /\ Acc
   ELSE OutOfScope
 
+(* a write on a TCP connection failed: like any connection failure its server is demoted; everything in flight on the
+   connection and everything still queued on it is requeued with one more try *)
+TcpWriteFailure(fd) ==
+  LET s == fdi[fd].srv
+      hit(id) == \/ (q[id].st = "inflight" /\ q[id].fd = fd)
+                 \/ (q[id].st = "tosend" /\ q[id].tcp /\ q[id].qsrv = s)
+  IN /\ q' = DropDoneProbes([id \in DOMAIN q |-> IF hit(id) THEN Requeued(q[id], TRUE, "ECONNREFUSED") ELSE q[id]])
+     /\ srv' = FailServer(s)
+     /\ owedF' = [owedF EXCEPT ![s] = @ + 1]
+     /\ fdi' = [fdi EXCEPT ![fd].err = TRUE]
+     /\ UNCHANGED <<cfg, now, owedO, proc, oos, xvars>> /\ Acc
+
+(* a write event lists the frames it completed (a partially written frame appears with the write that completes it);
+   they are judged one per step: frame number fi + 1 now *)
 HSend(e) ==
   IF e.fd \notin DOMAIN fdi \/ fdi[e.fd].srv = 0 THEN Skip     \* not a connection to a configured server
-  ELSE IF e.tcp = 1 /\ (e.res # "ok" \/ e.n < e.len \/ Len(e.frames) > 1) THEN OutOfScope
+  ELSE IF e.tcp = 1 /\ e.res = "err" THEN TcpWriteFailure(e.fd)
+  ELSE IF e.tcp = 1 /\ e.res # "ok" THEN Skip                   \* would block: nothing was written
   ELSE IF Len(e.frames) = 0 THEN Skip
-  ELSE HSendFrame(e, e.frames[1])
+  ELSE HSendFrame(e, e.frames[fi + 1])
 
 (* ---- packets read --------------------------------------------------------------- *)
 SameQuestion(rec, p) ==
@@ -420,7 +436,7 @@ HHint(e) ==
   ELSE IF Inflight # {} /\ e.us < 0 THEN Rej("c07.no_hint_while_queries_outstanding")
   ELSE IF cfg.maxtimeout > 0 /\ \E id \in Inflight : q[id].dhi < Sat /\ e.us > Max(q[id].sentAt + cfg.maxtimeout - now, 0) * 1000
        THEN Rej("c06.attempt_waits_longer_than_configured_maximum")
-  ELSE IF \E id \in Inflight : e.us > Max(q[id].dhi - now, 0) * 1000 THEN Rej("c07.hint_later_than_earliest_deadline")
+  ELSE IF \E id \in Inflight : q[id].dhi < Sat /\ e.us > Max(q[id].dhi - now, 0) * 1000 THEN Rej("c07.hint_later_than_earliest_deadline")
   ELSE IF e.max > 0 /\ e.us > e.max * 1000 THEN Rej("c07.hint_above_caller_maximum")
   ELSE IF ~HintSound(e.us, e.max) THEN Rej("c07.hint_unsound")
   ELSE Skip
@@ -440,7 +456,7 @@ Handle(e) ==
 
 Verdict == [verdict |-> IF bad THEN "REJ" ELSE "ACC", id |-> hid, line |-> why.line, label |-> why.label, oos |-> oos]
 
-TInit == /\ RInit /\ toks = <<>> /\ tcpin = <<>> /\ openfail = "" /\ newtry = <<>> /\ nest = 0
+TInit == /\ RInit /\ toks = <<>> /\ tcpin = <<>> /\ openfail = "" /\ newtry = <<>> /\ nest = 0 /\ fi = 0
          /\ l = 1 /\ bad = FALSE /\ why = [line |-> 0, label |-> ""] /\ hid = ""
 
 TNext ==
@@ -453,12 +469,15 @@ TNext ==
             /\ proc' = [in |-> FALSE, nonfd |-> FALSE, nrecv |-> 0, inbox |-> <<>>, ss |-> 0] /\ oos' = FALSE
             /\ toks' = <<>> /\ tcpin' = <<>> /\ openfail' = "" /\ newtry' = <<>>
             /\ bad' = FALSE /\ why' = [line |-> 0, label |-> ""]
-            /\ hid' = e.id /\ nest' = 0
+            /\ hid' = e.id /\ nest' = 0 /\ fi' = 0
        ELSE /\ hid' = hid
-            /\ IF bad \/ oos THEN Skip /\ l' = l + 1 /\ nest' = nest
-               ELSE IF CanProcessHead(e) THEN ProcessHead /\ l' = l /\ nest' = nest           \* silent step, the event is judged next
-               ELSE IF DyingTarget(e) # 0 THEN DestroyStep(DyingTarget(e)) /\ l' = l /\ nest' = nest
-               ELSE /\ Handle(e) /\ l' = l + 1
+            /\ IF bad \/ oos THEN Skip /\ l' = l + 1 /\ nest' = nest /\ fi' = 0
+               ELSE IF CanProcessHead(e) THEN ProcessHead /\ l' = l /\ nest' = nest /\ fi' = fi   \* silent step, the event is judged next
+               ELSE IF DyingTarget(e) # 0 THEN DestroyStep(DyingTarget(e)) /\ l' = l /\ nest' = nest /\ fi' = fi
+               ELSE /\ Handle(e)
+                    \* a write event with several frames is consumed one frame per step
+                    /\ IF e.e = "sk" /\ e.op = "send" /\ e.res = "ok" /\ Len(e.frames) > fi + 1
+                       THEN l' = l /\ fi' = fi + 1 ELSE l' = l + 1 /\ fi' = 0
                     /\ nest' = IF e.e = "call" THEN e.depth + 1 ELSE IF e.e = "ret" THEN e.depth ELSE nest
 
 TSpec == TInit /\ [][TNext]_tvars
